@@ -20,7 +20,7 @@ def atom_name(n, roots):
     return None
 
 
-def extract(n, roots, defs=None, local_atoms=None, depth=0):
+def extract(n, roots, defs=None, local_atoms=None, depth=0, bool_atoms=None):
     """returns formula: ('and',a,b) ('or',a,b) ('not',a) ('atom',name) ('const',b). Raises Opaque.
     roots: {local id: alias} whose fields are atoms; local_atoms: {local id: atom name} for integer locals
     compared against 0 (e.g. a step variable); defs: local_defs for following let-bound bool locals."""
@@ -31,10 +31,10 @@ def extract(n, roots, defs=None, local_atoms=None, depth=0):
     if k == "lit" and isinstance(n.get("v"), bool):
         return ("const", n["v"])
     if k == "unary" and n["op"] == "!":
-        return ("not", extract(n["e"], roots, defs, local_atoms, depth + 1))
+        return ("not", extract(n["e"], roots, defs, local_atoms, depth + 1, bool_atoms))
     if k == "binary" and n["op"] in ("&&", "||"):
-        a = extract(n["l"], roots, defs, local_atoms, depth + 1)
-        b = extract(n["r"], roots, defs, local_atoms, depth + 1)
+        a = extract(n["l"], roots, defs, local_atoms, depth + 1, bool_atoms)
+        b = extract(n["r"], roots, defs, local_atoms, depth + 1, bool_atoms)
         return ("and" if n["op"] == "&&" else "or", a, b)
     if k == "binary" and n["op"] in ("==", "!=", ">", ">=", "<", "<="):
         l, r = peel(n["l"]), peel(n["r"])
@@ -60,10 +60,12 @@ def extract(n, roots, defs=None, local_atoms=None, depth=0):
         if name is not None and (n.get("ty") or "") == "bool":
             return ("atom", name)
         raise Opaque(n, "non-bool or foreign field")
+    if k == "local" and bool_atoms is not None and n["id"] in bool_atoms:
+        return ("atom", bool_atoms[n["id"]])
     if k == "local" and (n.get("ty") or "") == "bool" and defs is not None:
         init = simple_let_init(defs, n["id"])
         if init is not None:
-            return extract(init, roots, defs, local_atoms, depth + 1)
+            return extract(init, roots, defs, local_atoms, depth + 1, bool_atoms)
         raise Opaque(n, "bool local without a simple definition")
     if k == "mcall" and n["name"] in ("is_used",):
         raise Opaque(n, "method call")
